@@ -30,11 +30,53 @@ func genC08(g *Gen, tier string) *Program {
 	if tier == "thorough" {
 		maxOps = 16
 	}
+	// a quarter of the programs churn: subscopes are closed and requested again
+	// all the time, so that the root's Close meets passes that are retiring and
+	// replacing scopes
+	wClose := 1
+	if g.Bool(25) {
+		wClose = 5
+	}
 	genWorkload(g, p, wlOpts{
 		tasks: [2]int{1, 3}, ops: [2]int{3, maxOps}, scopes: 3,
-		wDerive: 3, wCounter: 3, wInc: 8, wGauge: 1, wUpd: 2, wHist: 1, wRecH: 2, wTimer: 1, wRec: 1, wClose: 1, wSleep: 2, wYield: 1,
+		wDerive: 3, wCounter: 3, wInc: 8, wGauge: 1, wUpd: 2, wHist: 1, wRecH: 2, wTimer: 1, wRec: 1, wClose: wClose, wSleep: 2, wYield: 1,
 		reacquire: 70, closer: 100, closers: 3, ownGauge: true,
 	})
+	if wClose > 1 {
+		// and each task ends with a scope that is closed, requested again, used and
+		// closed again in quick succession - twice within one slow report pass
+		for ti, t := range p.Tasks {
+			var derive *Op
+			for i := range t {
+				if (t[i].K == "sub" || t[i].K == "tag") && t[i].S == 0 {
+					derive = &t[i]
+				}
+			}
+			if derive == nil {
+				continue
+			}
+			d0 := *derive
+			cur := d0.D
+			var tail []Op
+			for k := 0; k < 2; k++ {
+				nd := 60 + 2*k
+				re := d0
+				re.D = nd
+				tail = append(tail, Op{K: "close", S: cur}, re, Op{K: "counter", S: nd, M: nd, Name: "churn"}, Op{K: "inc", M: nd, I: int64(k + 1)})
+				cur = nd
+			}
+			tail = append(tail, Op{K: "close", S: cur})
+			// in front of the task's own closeroot, if it has one
+			at := len(t)
+			for i := range t {
+				if t[i].K == "closeroot" {
+					at = i
+					break
+				}
+			}
+			p.Tasks[ti] = append(append(append([]Op{}, t[:at]...), tail...), t[at:]...)
+		}
+	}
 	// some recorders keep going after they closed the root themselves
 	for ti := range p.Tasks {
 		if g.Bool(35) {
